@@ -145,6 +145,78 @@ Definition tk_filtered_dir : list stm :=
 Definition tk_register : list stm :=
   [SIf [SEv (Rd "search_tags"); SIf [SEv (Rd "search_tags"); SIf [SEv (Rd "search_tags")] []] [SEv (Wr "search_tags")]] []; SIf [] []; SEv (Call "expand_path"); SLoop [SEv (Rd "entries"); SIf [SEv (Rd "entries")] [SEv (Call "get_source_id"); SEv (Wr "entries")]]].
 
+Definition tk_fs_add : list stm :=
+  [SIf [SEv (Call "restrict")] []; SEv (Call "register")].
+
+Definition tk_resolve_from_tag : list stm :=
+  [SEv (Rd "search_tags"); SLoop [SEv (Call "resolve_from_id"); SEv (Call "append")]; SExit].
+
+Definition tk_resolve_from_id : list stm :=
+  [SEv (Rd "simple"); SIf [SEv (Rd "simple"); SExit] []; SEv (Rd "sequence"); SExit].
+
+Definition tk_source_id_to_path : list stm :=
+  [STry [SEv (Rd "source_ids"); SExit] [("KeyError", [SEv (Rd "source_ids")])] [] []; SExit].
+
+Definition tk_collection_init : list stm :=
+  [SEv (Call "reset")].
+
+Definition tk_collection_reset : list stm :=
+  [SEv (Wr "by_path")].
+
+Definition tk_tm_init : list stm :=
+  [SEv (Call "event_new"); SEv (Call "event_clear"); SEv (Call "thread_new"); SEv (Wr "running")].
+
+Definition tk_tm_start : list stm :=
+  [SEv (Call "thread_start"); SEv (Wr "running")].
+
+Definition tk_tm_stop : list stm :=
+  [SEv (Rd "running"); SIf [SEv (Call "event_set"); SEv (Call "thread_join"); SEv (Wr "running")] []].
+
+Definition tk_kill_workers : list stm :=
+  [SEv (Call "active_children"); SLoop [SIf [SIf [SEv (Call "remember_worker")] []] []]; SEv (Call "getpid"); SEv (Call "ps_children"); SLoop [SIf [SEv (Call "getpid"); SExit] []; STry [SEv (Call "kill")] [("ProcessLookupError", [])] [] []]].
+
+Definition tk_cm_init : list stm :=
+  [SEv (Wr "search_catalog"); SEv (Wr "global_constraints"); SEv (Wr "global_restrictions")].
+
+Definition tk_fs_stats : list stm :=
+  [SEv (Rd "stats"); SExit].
+
+Definition tk_rse_init : list stm :=
+  [SEv (Wr "msg")].
+
+Definition tk_fse_init : list stm :=
+  [SEv (Wr "msg")].
+
+Definition tk_searchdefbase_init : list stm :=
+  [SEv (Rd "arg_constraints"); SEv (Wr "constraints_attr"); SEv (Rd "id")].
+
+Definition tk_searchdefbase_constraints : list stm :=
+  [SEv (Rd "constraint_id"); SEv (Rd "constraints_attr"); SExit].
+
+Definition tk_searchdefbase_id : list stm :=
+  [SEv (Call "uuid4"); SExit].
+
+Definition tk_searchdef_init : list stm :=
+  [SEv (Rd "arg_pattern"); SEv (Call "isinstance"); SIf [SEv (Rd "arg_pattern"); SEv (Call "re_compile"); SEv (Wr "patterns")] [SEv (Wr "patterns"); SEv (Rd "arg_pattern"); SLoop [SEv (Call "re_compile"); SEv (Wr "patterns")]]; SEv (Rd "arg_store_result_contents"); SEv (Wr "store_result_contents"); SEv (Rd "arg_tag"); SEv (Wr "tag"); SEv (Rd "arg_field_info"); SEv (Wr "field_info"); SEv (Rd "arg_hint"); SEv (Wr "hint"); SEv (Rd "arg_hint"); SIf [SEv (Rd "arg_hint"); SEv (Call "re_compile"); SEv (Wr "hint")] []; SEv (Wr "sequence_def"); SEv (Call "super_init")].
+
+Definition tk_searchdef_link_to_sequence : list stm :=
+  [SEv (Rd "arg_sequence_def"); SEv (Wr "sequence_def"); SEv (Rd "arg_tag"); SEv (Wr "tag")].
+
+Definition tk_searchtask_init : list stm :=
+  [SEv (Wr "proc"); SEv (Rd "arg_info"); SEv (Wr "info"); SEv (Call "stats_new"); SEv (Wr "stats"); SEv (Rd "arg_constraints_manager"); SEv (Wr "constraints_manager"); SEv (Rd "arg_results_manager"); SEv (Wr "results_manager"); SEv (Wr "decode_kwargs"); SEv (Rd "arg_decode_errors"); SIf [SEv (Rd "arg_decode_errors"); SEv (Wr "decode_kwargs")] []; SEv (Wr "results_buffer")].
+
+Definition tk_resultsmanager_init : list stm :=
+  [SEv (Rd "arg_results_queue"); SEv (Rd "arg_results_collection"); SIf [SRaise "SearchTaskError"] []; SEv (Rd "arg_results_store"); SEv (Wr "results_store"); SEv (Rd "arg_results_queue"); SEv (Wr "results_queue"); SEv (Rd "arg_results_collection"); SEv (Wr "results_collection")].
+
+Definition tk_resultsmanager_results_store : list stm :=
+  [SEv (Rd "results_store"); SExit].
+
+Definition tk_resultsmanager_results_queue : list stm :=
+  [SEv (Rd "results_queue"); SExit].
+
+Definition tk_resultsmanager_results_collection : list stm :=
+  [SEv (Rd "results_collection"); SExit].
+
 Definition tk_rsp_init : list stm :=
   [SEv (Call "base_init"); SEv (Call "mgr_value"); SEv (Wr "alloc_pointer"); SEv (Call "mgr_dict"); SEv (Wr "data"); SEv (Call "mgr_dict"); SEv (Wr "value_store"); SEv (Call "mgr_dict"); SEv (Wr "tag_store"); SEv (Call "mgr_dict"); SEv (Wr "sequence_id_store"); SEv (Wr "local_store")].
 
